@@ -177,6 +177,7 @@ pub enum H {
 
 pub struct World {
     pub sh: Arc<Shared>,
+    pub t0: tokio::time::Instant,
     pub handles: Vec<Option<H>>, // index = hid; None = dropped
     pub next_oid: u64,
     /// route operations through type-erased wrappers chosen from this stream (C16); None = direct
@@ -230,6 +231,9 @@ pub fn parse_spawn(ws: &[&str]) -> Option<(usize, Shared)> {
 }
 
 impl World {
+    fn now(&self) -> u128 {
+        self.t0.elapsed().as_millis()
+    }
     fn strong(&self, h: &str) -> Option<ActorRef<ScriptActor>> {
         let i: usize = h.parse().ok()?;
         match self.handles.get(i)? {
@@ -254,7 +258,8 @@ impl World {
                 let Some(r) = self.strong(h) else { return false };
                 let oid = self.next_oid;
                 self.next_oid += 1;
-                log::client(oid, "issued stop".into());
+                let t0 = self.t0;
+                log::client(oid, format!("issued stop @{}", self.now()));
                 let erased = self.erase.as_mut().map(|g| g.below(2) == 1).unwrap_or(false);
                 tokio::spawn(WithOp {
                     oid,
@@ -267,8 +272,8 @@ impl World {
                             r.stop().await
                         };
                         match res {
-                            Ok(()) => log::client(oid, "ret ok".into()),
-                            Err(e) => log::client(oid, format!("ret {}", show_err(&e))),
+                            Ok(()) => log::client(oid, format!("ret ok @{}", t0.elapsed().as_millis())),
+                            Err(e) => log::client(oid, format!("ret {} @{}", show_err(&e), t0.elapsed().as_millis())),
                         }
                     },
                 });
@@ -278,7 +283,8 @@ impl World {
                 let Some(r) = self.strong(h) else { return false };
                 let oid = self.next_oid;
                 self.next_oid += 1;
-                log::client(oid, "issued kill".into());
+                let t0 = self.t0;
+                log::client(oid, format!("issued kill @{}", self.now()));
                 let erased = self.erase.as_mut().map(|g| g.below(2) == 1).unwrap_or(false);
                 let res = log::CURRENT_OP.with(|c| {
                     let prev = c.replace(Some(oid));
@@ -292,8 +298,8 @@ impl World {
                     res
                 });
                 match res {
-                    Ok(()) => log::client(oid, "ret ok".into()),
-                    Err(e) => log::client(oid, format!("ret {}", show_err(&e))),
+                    Ok(()) => log::client(oid, format!("ret ok @{}", t0.elapsed().as_millis())),
+                    Err(e) => log::client(oid, format!("ret {} @{}", show_err(&e), t0.elapsed().as_millis())),
                 }
                 true
             }
@@ -313,6 +319,7 @@ impl World {
                 let Ok(i) = h.parse::<usize>() else { return false };
                 match self.handles.get_mut(i) {
                     Some(slot @ Some(_)) => {
+                        log::handle(format!("drop {i}"));
                         *slot = None;
                         true
                     }
@@ -370,8 +377,9 @@ impl World {
         };
         let oid = self.next_oid;
         self.next_oid += 1;
+        let t0 = self.t0;
         let t = timeout.map(|d| format!(" timeout={d}")).unwrap_or_default();
-        log::client(oid, format!("issued {op}{t}"));
+        log::client(oid, format!("issued {op}{t} @{}", self.now()));
         let msg = Msg { mid: oid, panic };
         let erased = self.erase.as_mut().map(|g| g.below(3)).unwrap_or(0);
         if op == "tell" {
@@ -406,8 +414,8 @@ impl World {
                         }
                     };
                     match res {
-                        Ok(()) => log::client(oid, "ret ok".into()),
-                        Err(e) => log::client(oid, format!("ret {}", show_err(&e))),
+                        Ok(()) => log::client(oid, format!("ret ok @{}", t0.elapsed().as_millis())),
+                        Err(e) => log::client(oid, format!("ret {} @{}", show_err(&e), t0.elapsed().as_millis())),
                     }
                 },
             });
@@ -442,8 +450,8 @@ impl World {
                         }
                     };
                     match res {
-                        Ok(v) => log::client(oid, format!("ret reply:{v}")),
-                        Err(e) => log::client(oid, format!("ret {}", show_err(&e))),
+                        Ok(v) => log::client(oid, format!("ret reply:{v} @{}", t0.elapsed().as_millis())),
+                        Err(e) => log::client(oid, format!("ret {} @{}", show_err(&e), t0.elapsed().as_millis())),
                     }
                 },
             });
@@ -454,13 +462,25 @@ impl World {
 
 /// Runs a script whose next line is produced by `next_line` (given the real world's state, so a
 /// generator can steer by what is actually alive); returns (script lines, text in the driver's format).
+pub struct RunOut {
+    pub script: Vec<String>,
+    /// driver-format text with canonically ordered events (compared with the model)
+    pub canon: Vec<String>,
+    /// the same with events in the order they happened (fed to the monitors)
+    pub raw: Vec<String>,
+    /// at the end no hook was waiting for its gate
+    pub settled: bool,
+}
+
 pub fn run_with<F: FnMut(Option<&World>) -> Option<String>>(
     mut next_line: F,
     erase_seed: Option<u64>,
-) -> (Vec<String>, Vec<String>) {
+) -> RunOut {
     log::install();
     log::reset();
     let mut out = vec![];
+    let mut raw = vec![];
+    let mut settled = false;
     let mut script = vec![];
     let rt = tokio::runtime::Builder::new_current_thread()
         .enable_time()
@@ -479,6 +499,7 @@ pub fn run_with<F: FnMut(Option<&World>) -> Option<String>>(
                 match parse_spawn(&ws[1..]) {
                     Some((cap, sh)) => {
                         out.push(format!("> {}", line.trim()));
+                        raw.push(format!("> {}", line.trim()));
                         let sh = Arc::new(sh);
                         let (r, jh) = rsactor::spawn_with_mailbox_capacity::<ScriptActor>(sh.clone(), cap);
                         tokio::spawn(async move {
@@ -487,6 +508,7 @@ pub fn run_with<F: FnMut(Option<&World>) -> Option<String>>(
                         });
                         world = Some(World {
                             sh,
+                            t0: tokio::time::Instant::now(),
                             handles: vec![Some(H::Strong(r))],
                             next_oid: 0,
                             erase: erase_seed.map(crate::rng::Rng::new),
@@ -506,9 +528,11 @@ pub fn run_with<F: FnMut(Option<&World>) -> Option<String>>(
                     }
                     Some(w) => {
                         out.push(format!("> {}", line.trim()));
+                        raw.push(format!("> {}", line.trim()));
                         if !w.apply(&line) {
                             out.push("! disabled".into());
                             out.push("--".into());
+                            raw.push("--".into());
                             continue;
                         }
                     }
@@ -516,13 +540,17 @@ pub fn run_with<F: FnMut(Option<&World>) -> Option<String>>(
             }
             // quiescence: with a paused clock Tokio advances time only when no task is runnable
             tokio::time::sleep(Duration::from_millis(10)).await;
-            out.extend(log::take_canonical());
+            let (r, c) = log::take_both();
+            out.extend(c);
             out.push("--".into());
+            raw.extend(r);
+            raw.push("--".into());
         }
+        settled = world.as_ref().map(|w| !w.sh.waiting.load(Ordering::SeqCst)).unwrap_or(true);
         drop(world);
     });
     drop(rt);
-    (script, out)
+    RunOut { script, canon: out, raw, settled }
 }
 
 /// Runs a fixed script.
@@ -536,5 +564,5 @@ pub fn run_script(lines: &[String], erase_seed: Option<u64>) -> Vec<String> {
         },
         erase_seed,
     )
-    .1
+    .canon
 }
